@@ -73,6 +73,14 @@ Proof.
   destruct (filter _ (convs st)); [apply api_frame_refl|]. unfold api_frame. simpl. repeat split; auto; try (intros _; discriminate).
 Qed.
 
+Lemma after_detach_api k b st : api_frame st (after_detach k b st).
+Proof.
+  unfold after_detach. destruct (kf_detachreset k); [apply api_frame_refl|].
+  destruct (b && has_data_tag (tags st)); [|apply api_frame_refl]. unfold api_frame; simpl; auto.
+Qed.
+Lemma tag_again_api k p st : api_frame st (tag_again k p st).
+Proof. unfold tag_again. destruct (kf_detachreset k); [apply api_frame_refl|apply start_tagging_api]. Qed.
+
 Lemma detach_api st n c : api_frame st (detach st n c).
 Proof.
   unfold detach. destruct (tget n (tags st)); [|apply api_frame_refl].
@@ -109,7 +117,8 @@ Proof.
   - destruct (tget n (tags st)); [apply api_frame_refl|]. destruct (refs_ok n d (tags st)); [|apply api_frame_refl].
     destruct (d_mark d); [fr|]. eapply api_frame_trans; [|apply start_tagging_api]. fr.
   - destruct (tget n (tags st)); [|apply api_frame_refl]. destruct (referenced n (tags st)); [apply api_frame_refl|].
-    eapply api_frame_trans; [apply (fold_api (fun s c => detach s n c)); intros; apply detach_api|]. fr.
+    eapply api_frame_trans; [apply (fold_api (fun s c => detach s n c)); intros; apply detach_api|].
+    eapply api_frame_trans; [|apply tag_again_api]. eapply api_frame_trans; [apply after_detach_api|]. fr.
   - destruct (tget n (tags st)); [|apply api_frame_refl]. destruct (complex d && _); [apply api_frame_refl|]. destruct (refs_ok n d (tags st)); [|apply api_frame_refl].
     eapply api_frame_trans; [|apply start_converter_api]. eapply api_frame_trans; [|apply start_tagging_api]. fr.
   - destruct (tget n (tags st)); [|apply api_frame_refl]. destruct ids; [apply api_frame_refl|].
@@ -120,7 +129,8 @@ Proof.
     eapply api_frame_trans; [|apply start_converter_api]. eapply api_frame_trans; [|apply start_tagging_api]. fr.
   - destruct (tget n (tags st)); [|apply api_frame_refl].
     match goal with |- context[if ?b then _ else _] => destruct b end; [|apply api_frame_refl].
-    eapply api_frame_trans; [|apply start_converter_api]. eapply api_frame_trans; [|apply attach_all_api].
+    eapply api_frame_trans; [|apply start_converter_api]. eapply api_frame_trans; [|apply tag_again_api]. eapply api_frame_trans; [|apply attach_all_api].
+    eapply api_frame_trans; [|apply after_detach_api].
     apply (fold_api (fun s c => if memN c cs then s else detach s n c)). intros s c. destruct (memN c cs); [apply api_frame_refl|apply detach_api].
   - fr.
   - destruct (find _ (views st)) as [[v0 sv]|]; [|apply api_frame_refl]. destruct (cache st c i); [apply api_frame_refl|].
@@ -148,6 +158,13 @@ Proof.
   unfold detach. destruct (tget n (tags st)); [|apply qframe_refl].
   match goal with |- context[if ?b then _ else _] => destruct b end; split; reflexivity.
 Qed.
+Lemma after_detach_q k b st : qframe st (after_detach k b st).
+Proof.
+  unfold after_detach. destruct (kf_detachreset k); [apply qframe_refl|].
+  destruct (b && has_data_tag (tags st)); [|apply qframe_refl]. split; reflexivity.
+Qed.
+Lemma tag_again_q k p st : qframe st (tag_again k p st).
+Proof. unfold tag_again. destruct (kf_detachreset k); [apply qframe_refl|apply start_tagging_q]. Qed.
 Lemma fold_q (f : state -> N -> state) l : (forall s c, qframe s (f s c)) -> forall st, qframe st (fold_left f l st).
 Proof. intros Hf. induction l as [|c l IH]; simpl; intros st; [apply qframe_refl|]. eapply qframe_trans; [apply Hf|apply IH]. Qed.
 Lemma attach_q st n c st' : attach st n c = Some st' -> qframe st st'.
@@ -171,7 +188,8 @@ Proof.
   - destruct (tget n (tags st)); [apply qframe_refl|]. destruct (refs_ok n d (tags st)); [|apply qframe_refl].
     destruct (d_mark d); [qf|]. eapply qframe_trans; [|apply start_tagging_q]. qf.
   - destruct (tget n (tags st)); [|apply qframe_refl]. destruct (referenced n (tags st)); [apply qframe_refl|].
-    eapply qframe_trans; [apply (fold_q (fun s c => detach s n c)); intros; apply detach_q|]. qf.
+    eapply qframe_trans; [apply (fold_q (fun s c => detach s n c)); intros; apply detach_q|].
+    eapply qframe_trans; [|apply tag_again_q]. eapply qframe_trans; [apply after_detach_q|]. qf.
   - destruct (tget n (tags st)); [|apply qframe_refl]. destruct (complex d && _); [apply qframe_refl|]. destruct (refs_ok n d (tags st)); [|apply qframe_refl].
     eapply qframe_trans; [|apply start_converter_q]. eapply qframe_trans; [|apply start_tagging_q]. qf.
   - destruct (tget n (tags st)); [|apply qframe_refl]. destruct ids; [apply qframe_refl|].
@@ -182,7 +200,8 @@ Proof.
     eapply qframe_trans; [|apply start_converter_q]. eapply qframe_trans; [|apply start_tagging_q]. qf.
   - destruct (tget n (tags st)); [|apply qframe_refl].
     match goal with |- context[if ?b then _ else _] => destruct b end; [|apply qframe_refl].
-    eapply qframe_trans; [|apply start_converter_q]. eapply qframe_trans; [|apply attach_all_q].
+    eapply qframe_trans; [|apply start_converter_q]. eapply qframe_trans; [|apply tag_again_q]. eapply qframe_trans; [|apply attach_all_q].
+    eapply qframe_trans; [|apply after_detach_q].
     apply (fold_q (fun s c => if memN c cs then s else detach s n c)). intros s c. destruct (memN c cs); [apply qframe_refl|apply detach_q].
   - qf.
   - destruct (find _ (views st)) as [[v0 sv]|]; [|apply qframe_refl]. destruct (cache st c i); [apply qframe_refl|].
@@ -231,6 +250,14 @@ Proof.
   match goal with |- context[if ?b then _ else _] => destruct b end; unfold cframe; simpl; auto.
 Qed.
 
+Lemma after_detach_c k b st : cframe st (after_detach k b st).
+Proof.
+  unfold after_detach. destruct (kf_detachreset k); [apply cframe_refl|].
+  destruct (b && has_data_tag (tags st)); [|apply cframe_refl]. unfold cframe; simpl; auto.
+Qed.
+Lemma tag_again_c k p st : cframe st (tag_again k p st).
+Proof. unfold tag_again. destruct (kf_detachreset k); [apply cframe_refl|apply start_tagging_c]. Qed.
+
 Lemma fold_c (f : state -> N -> state) l : (forall s c, cframe s (f s c)) -> forall st, cframe st (fold_left f l st).
 Proof. intros Hf. induction l as [|c l IH]; simpl; intros st; [apply cframe_refl|]. eapply cframe_trans; [apply Hf|apply IH]. Qed.
 
@@ -244,7 +271,8 @@ Proof.
     eapply conv_covered_cframe; [exact HC|]. eapply cframe_trans; [|apply start_tagging_c]. unfold cframe; simpl; auto.
   - destruct (tget n (tags st)); [|exact HC]. destruct (referenced n (tags st)); [exact HC|].
     eapply conv_covered_cframe; [exact HC|].
-    eapply cframe_trans; [apply (fold_c (fun s c => detach s n c)); intros; apply detach_c|]. unfold cframe; simpl; auto.
+    eapply cframe_trans; [apply (fold_c (fun s c => detach s n c)); intros; apply detach_c|].
+    eapply cframe_trans; [|apply tag_again_c]. eapply cframe_trans; [apply after_detach_c|]. unfold cframe; simpl; auto.
   - destruct (tget n (tags st)); [|exact HC]. destruct (complex d && _); [exact HC|]. destruct (refs_ok n d (tags st)); [|exact HC]. apply start_converter_post.
   - destruct (tget n (tags st)); [|exact HC]. destruct ids; [exact HC|].
     destruct (next st <=? maxl (n0 :: ids)); [exact HC|]. apply start_converter_post.
@@ -317,6 +345,7 @@ Proof.
     destruct (d_mark d); [|apply start_tagging_post].
     apply (tag_covered_tcert st); [exact TI|]. split; [reflexivity|]. intros A. simpl. apply ac_tset; [exact A|reflexivity].
   - destruct (tget n (tags st)); [|exact TW]. destruct (referenced n (tags st)); [exact TW|].
+    unfold tag_again, after_detach. destruct (kf_detachreset k); [|apply start_tagging_post].
     apply (tag_covered_tcert st); [exact TI|].
     eapply tcert_trans; [apply (fold_t (fun s c => detach s n c)); intros; apply detach_t|].
     split; [reflexivity|]. intros A. simpl. unfold tdel. apply ac_tset; [exact A|reflexivity].
@@ -328,6 +357,7 @@ Proof.
     destruct (next st <=? maxl (n0 :: ids)); [exact TW|]. apply start_converter_keeps_tag, start_tagging_post.
   - destruct (tget n (tags st)); [|exact TW].
     match goal with |- context[if ?b then _ else _] => destruct b end; [|exact TW].
+    unfold tag_again, after_detach. destruct (kf_detachreset k); [|apply start_converter_keeps_tag, start_tagging_post].
     apply (tag_covered_tcert st); [exact TI|].
     eapply tcert_trans; [|apply start_converter_t]. eapply tcert_trans; [|apply attach_all_t].
     apply (fold_t (fun s c => if memN c cs then s else detach s n c)). intros s c. destruct (memN c cs); [apply tcert_refl|apply detach_t].
@@ -409,6 +439,27 @@ Proof.
   destruct (tag_has_conv c t); [inversion E; subst; exact TC|]. destruct (complex (t_def t)); [discriminate|]. inversion E; subst.
   apply (tcore_convonly st); try reflexivity; [exact TC|simpl; apply (eqU_tset n t); auto].
 Qed.
+
+Lemma tcore_reopen st s : Tcore st -> bounded (next st) s -> Tcore (reopen_data st s).
+Proof.
+  intros TC BS. pose proof TC as (A1 & A2 & A3 & A4 & A5 & A6 & A7 & A8 & A9 & A10 & A11 & A12).
+  apply (tcore_grow st); try reflexivity; try assumption; unfold reopen_data; simpl.
+  - eapply grow_trans; [apply grow_data_tags|apply grow_inherit].
+  - apply deadok_inherit, deadok_data_tags. exact A3.
+  - apply u_bounded_inherit, ub_data_tags; [apply tags_u_bounded; exact A4|exact BS].
+  - apply closed_inherit.
+  - apply union_bounded; assumption.
+  - intros j Hj. exact Hj.
+Qed.
+
+Lemma tcore_after_detach k b st : Tcore st -> Tcore (after_detach k b st).
+Proof.
+  intros TC. unfold after_detach. destruct (kf_detachreset k); [exact TC|].
+  destruct (b && has_data_tag (tags st)); [|exact TC]. apply tcore_reopen; [exact TC|apply ones_bounded].
+Qed.
+
+Lemma tcore_tag_again k p st : Tcore st -> Tcore (tag_again k p st).
+Proof. intros TC. unfold tag_again. destruct (kf_detachreset k); [exact TC|apply tcore_start_tagging, TC]. Qed.
 
 Lemma fold_core (f : state -> N -> state) l : (forall s c, Tcore s -> Tcore (f s c)) -> forall st, Tcore st -> Tcore (fold_left f l st).
 Proof. intros Hf. induction l; simpl; auto. Qed.
@@ -561,9 +612,13 @@ Proof.
     destruct (referenced n (tags st)) eqn:RF; [exact TC|].
     set (st1 := fold_left (fun s c => detach s n c) (t_conv t) st).
     assert (Tcore st1) as TC1 by (apply fold_core; [intros; apply detach_core; assumption|exact TC]).
+    apply tcore_tag_again.
+    match goal with |- Tcore (set_tags ?s2 _) => set (st2 := s2) end.
+    assert (Tcore st2) as TC2 by (apply tcore_after_detach; exact TC1).
     unfold tdel. apply tcore_slot; try assumption; simpl; try discriminate.
-    1: { intros k0 t0 I L Hin. destruct (fold_detach_defs _ _ _ _ _ I) as (t1 & I1 & D1 & L1).
-         apply (referenced_false n (tags st) RF k0 t1 I1); [congruence|rewrite D1; exact Hin]. }
+    1: { intros k0 t0 I L Hin. destruct (after_detach_defs _ _ _ _ _ I) as (t2 & I2 & D2 & L2).
+         destruct (fold_detach_defs _ _ _ _ _ I2) as (t1 & I1 & D1 & L1).
+         apply (referenced_false n (tags st) RF k0 t1 I1); [congruence|rewrite D1, D2; exact Hin]. }
     all: try (intros _; repeat split). all: try (left; reflexivity).
   - (* AQuery *) destruct (tget n (tags st)) as [t|] eqn:Tn; [|exact TC].
     destruct (complex d && _); [exact TC|].
@@ -622,7 +677,7 @@ Proof.
     exact (tcore_clear (set_tags st ts1) n x TC2 Tx RX).
   - (* ASetConv *) destruct (tget n (tags st)); [|exact TC].
     match goal with |- context[if ?b then _ else _] => destruct b end; [|exact TC].
-    apply tcore_start_converter, attach_all_core. apply fold_core; [|exact TC].
+    apply tcore_start_converter, tcore_tag_again, attach_all_core, tcore_after_detach. apply fold_core; [|exact TC].
     intros s c Hs. destruct (memN c cs); [exact Hs|apply detach_core; exact Hs].
   - (* AViewOpen *) apply (tcore_frame st); try reflexivity; [intros nn rr E; exact E|exact TC].
   - (* AViewData *) destruct (find _ (views st)) as [[v0 sv]|]; [|exact TC]. destruct (cache st c i); [exact TC|].
